@@ -61,6 +61,83 @@ def gap_query(terminals):
     return st, (RX.z3_unescape(w) if st == "sat" else w), approx
 
 
+def ms_grammar(flags0, flags1):
+    """flags = (auto_newline, auto_ws, allow_unmatched) for INITIAL and for the extra state Inner"""
+    def dirs(f, indent=""):
+        out = []
+        if not f[0]:
+            out.append(indent + "%auto_newline_off")
+        if not f[1]:
+            out.append(indent + "%auto_ws_off")
+        if f[2]:
+            out.append(indent + "%allow_unmatched")
+        return out
+    lines = ["%start S", '%title "c16ms"', '%comment "c16ms"'] + dirs(flags0) + ["%on Open %enter Inner", "%scanner Inner {"] + dirs(flags1, "    ") + \
+            ["    %on Close %enter INITIAL", "}", "%%", "S: { Item };", "Item: Word | Open InnerWord Close;", 'Word: "a";', "Open: '[';",
+             'InnerWord: <Inner>"b";', "Close: <Inner>']';"]
+    return "\n".join(lines) + "\n"
+
+
+def multi_state_leg(run, known, known_seen):
+    combos = list(itertools.product([True, False], [True, False], [False, True]))
+    cases = [(f0, f1) for f0 in combos for f1 in combos]
+    if tier() == "quick":
+        import random
+        rnd = random.Random(seed())
+        rnd.shuffle(cases)
+        cases = [((True, True, False), c) for c in combos] + [(c, (True, True, False)) for c in combos] + cases[:12]
+    reqs = [{"id": i, "grammar_full": ms_grammar(f0, f1)} for i, (f0, f1) in enumerate(cases)]
+    consts, resp = ask_driver(reqs)
+    programs = dis = 0
+    for i, (f0, f1) in enumerate(cases):
+        r = resp.get(i)
+        if not r or not r.get("ok"):
+            run.inconc("driver failed for multi-state grammar %s/%s: %s" % (f0, f1, (r or {}).get("error", "")[:200]))
+            continue
+        programs += 1
+        for st in r["states"]:
+            flags = f0 if st["name"] == "INITIAL" else f1
+            terms = st["terminals"]
+            has_catch_all = any(t[3] == "Error" for t in terms)
+            desc = "state %s (auto_newline=%s, auto_ws=%s, allow_unmatched=%s) of a two-state grammar" % (st["name"], flags[0], flags[1], flags[2])
+            problem = None
+            if flags[2] and has_catch_all:
+                problem = ("catch-all-in-allow-unmatched-state", "%s still contains the catch-all Error terminal" % desc, "?")
+            elif not flags[2]:
+                try:
+                    stq, w, approx = gap_query(terms)
+                except RX.RxError as ex:
+                    run.inconc("translator: %s" % ex)
+                    continue
+                if stq == "sat":
+                    problem = ("gap", "%s: no terminal matches any prefix of %r" % (desc, w), w)
+                elif stq != "unsat":
+                    run.inconc("gap query %s for %s" % (stq, desc))
+            if not problem:
+                continue
+            dis += 1
+            # native replay on the generated parser: unmatched text inside the state
+            gpath = os.path.join(BUILD, "gen", "c16ms_%d.par" % i)
+            os.makedirs(os.path.dirname(gpath), exist_ok=True)
+            open(gpath, "w").write(ms_grammar(f0, f1))
+            binp, info = GP.build_parser(gpath)
+            if not binp:
+                run.inconc("cannot build generated parser for %s: %s" % (desc, info[-300:]))
+                continue
+            w = problem[2]
+            text = ("a" + w + "a") if st["name"] == "INITIAL" else ("a[b" + w + "]a")
+            base = GP.run_parser(binp, "a[b]a")
+            res = GP.run_parser(binp, text)
+            expect_accept = flags[2]
+            reproduced = base["accepted"] is True and (res["accepted"] is True) != expect_accept
+            what = "%s; natively the generated parser %s %r (must %s)" % (problem[1], "accepts" if res["accepted"] is True else "rejects", text, "accept and keep the text" if expect_accept else "reject")
+            if reproduced:
+                run.violation(what, {"kind": problem[0], "grammar": ms_grammar(f0, f1), "input": text, "expect_accept": expect_accept})
+            else:
+                run.inconc("multi-state witness not reproduced natively: " + what)
+    return programs, dis
+
+
 def main():
     run = Run("C16", "translation_validation")
     cfgs = configs()
@@ -128,6 +205,12 @@ def main():
             known_seen.setdefault(cls, []).append(desc)
         else:
             run.violation(what, {"config": c, "witness": w, "kind": "gap", "grammar": grammar_text(c), "input": sentence + w})
+    # ---- second leg: the whole pipeline PAR text -> scanner configurations -> terminal lists,
+    # with additional scanner states (directives are carried per state by to_grammar_config)
+    ms_programs, ms_dis = multi_state_leg(run, known, known_seen)
+    programs += ms_programs
+    disagreements += ms_dis
+    queries += ms_programs
     for cls, lst in known_seen.items():
         run.known("%s [%d configurations reproduced natively in this run]" % (known[cls]["what"], len(lst)))
     run.cov.update({
@@ -145,6 +228,14 @@ def main():
 
 def replay(path):
     obj = json.load(open(path))["replay"]
+    if "expect_accept" in obj:
+        gpath = os.path.join(BUILD, "gen", "c16_replay.par")
+        os.makedirs(os.path.dirname(gpath), exist_ok=True)
+        open(gpath, "w").write(obj["grammar"])
+        binp, info = GP.build_parser(gpath)
+        res = GP.run_parser(binp, obj["input"])
+        print(res["accepted"], res["raw"][-300:])
+        return 1 if (res["accepted"] is True) != obj["expect_accept"] else 0
     gpath = os.path.join(BUILD, "gen", "c16_replay.par")
     os.makedirs(os.path.dirname(gpath), exist_ok=True)
     open(gpath, "w").write(obj["grammar"])
